@@ -86,7 +86,7 @@ chk("C01",
     "theorem that once setup has returned an index, the token of EVERY stored keyword is generated and Search returns exactly its list - same "
     "identifiers, same order, no exception, the probe loop terminates - for every configuration the config builder accepts, every key, every "
     "database (no bound on keywords, list lengths, block sizes: the smallest database and every block/level/power-of-two boundary are instances) "
-    "and every randomness tape (Props/C01.lean; proved in full for PiBas, PiPack, PiPtr, Pi2Lev, SSE1, SSE2 - the last two also without any collision hypothesis, address distinctness being derived from C15 -, CT14 - incl. the arithmetic of its greedy power-of-two decomposition -, ANSS16; EDBSetup is proved to return for PiBas/PiPack (every key, database and sufficient tape) and for SSE2 (SSE2.correct: no hypothesis about the run at all - every accepted configuration, key and valid database) and never to raise for CT14, ANSS16, PiPtr, Pi2Lev, SSE1 (array size a power of two, fewer than param_s postings) and DP17 - i.e. for all nine schemes - (the only model failure left is exhausted randomness; for DP17 this includes that the level search finds the first fitting level and that a bucket with room always exists); for DP17: DP17.search_stored - the search of a stored keyword returns (no KeyError / IndexError: every chunk's table entry decodes to an existing level and bucket) and misses no identifier; 'returns nothing else' is derived from the hypothesis ProbesClean (trial decryption of foreign or dummy cells under this keyword's key is not accepted - an AES output fact outside the leaf laws) which, like 'probes beyond the last chunk miss the table', the driver evaluates on every recorded run; DP17.search_stored_partial is the statement without those two hypotheses). Tie: recorded-oracle correspondence - the real scheme runs "
+    "and every randomness tape (Props/C01.lean; proved in full for PiBas, PiPack, PiPtr, Pi2Lev, SSE1, SSE2 - the last two also without any collision hypothesis, address distinctness being derived from C15 -, CT14 - incl. the arithmetic of its greedy power-of-two decomposition -, ANSS16; EDBSetup is proved to return for PiBas/PiPack (every key, database and sufficient tape) and for SSE2 (SSE2.correct: no hypothesis about the run at all - every accepted configuration, key and valid database) and never to raise for CT14, ANSS16, PiPtr, Pi2Lev, SSE1 (array size a power of two, fewer than param_s postings) and DP17 - i.e. for all nine schemes - (the only model failure left is exhausted randomness; for DP17 this includes that the level search finds the first fitting level and that a bucket with room always exists); for DP17: DP17.search_stored - the search of a stored keyword returns (no KeyError / IndexError: every chunk's table entry decodes to an existing level and bucket) and misses no identifier; 'returns nothing else' is derived from the hypothesis ProbesClean (trial decryption of foreign or dummy cells under this keyword's key is not accepted - an AES output fact outside the leaf laws) which, like 'probes beyond the last chunk miss the table', the driver evaluates on every recorded run; DP17.search_stored_of_wrongKey derives ProbesClean from the structure of the index - DP17.setup_cells: every bucket of every level array is a whole number of cells, each a random draw of the run or Enc(F_k3(w'), iv, id'||0^lambda) of a posting of the database - and from the assumption in its textbook form (trial decryption under this keyword's tag accepts neither a dummy nor another keyword's ciphertext); DP17.search_stored_partial is the statement without any such hypothesis). Tie: recorded-oracle correspondence - the real scheme runs "
     "under a recorder (leaves + randomness tape), the Lean driver replays them and must reproduce the key, the index cell by cell, every token "
     "and every result - plus the direct oracle Search(EDBSetup(K,DB),TokenGen(K,w)) == DB[w] on the real code for all nine schemes over "
     "boundary profiles.",
@@ -118,10 +118,10 @@ chk("C04",
     "ciphertexts whatever the keys and messages (one identifier under every keyword, the same database twice); in the counter-chain schemes "
     "every stored value is such a ciphertext with its own draw (the tape is exactly the list of value prefixes), distinct draws give distinct "
     "entries, and every stored key is a PRF output of a PRF-derived per-keyword key: keywords and identifiers enter the index only as arguments "
-    "of keyed primitives; for PiPtr and Pi2Lev EVERY stored byte string (occupied array cells of all levels, dictionary values) is a ciphertext stamped with a draw of the run, for every key, database and tape (index_is_ciphertexts), so two set-ups with non-overlapping randomness share no stored byte string (reencryption_shares_nothing); for CT14 and ANSS16 every value of every level table and of the size table is a ciphertext concatenation stamped with a draw of the run or itself a random draw (values_from_randomness). Tie: the scheme correspondence reproduces every cell of the real index of all nine schemes from the recorded "
+    "of keyed primitives; for PiPtr and Pi2Lev EVERY stored byte string (occupied array cells of all levels, dictionary values) is a ciphertext stamped with a draw of the run, for every key, database and tape (index_is_ciphertexts), so two set-ups with non-overlapping randomness share no stored byte string (reencryption_shares_nothing); for CT14 and ANSS16 every value of every level table and of the size table is a ciphertext concatenation stamped with a draw of the run or itself a random draw (values_from_randomness); for DP17 every bucket of every level array is a whole number of cells of param_identifier_cipher_len bytes and every cell is a random draw of the run or Enc(F_k3(w), iv, id||0^lambda) of a posting of the database under an IV drawn in the run (DP17.cells_from_randomness). Tie: the scheme correspondence reproduces every cell of the real index of all nine schemes from the recorded "
     "leaves and draws (a cell holding a raw identifier, a keyless label or a reused IV is a disagreement). Direct oracle on the real code: "
     "substring scan of the serialized index and tokens for >=6-byte keywords and 8-byte identifiers, pairwise distinct ciphertext entries with one "
-    "identifier under every keyword, disjoint entries of two setups of the same (key, database).",
+    "identifier under every keyword, disjoint entries of two setups of the same (key, database); the index serialized AFTER every keyword has been searched twice is scanned as well.",
     SCHEME_TRUST + " 'No substring occurs' is a probability statement about pseudo-random bytes (chance < 2^-40): outside any theorem.",
     "Lean 4 proof (structural: IV freshness => distinct ciphertexts, keys are PRF outputs) + recorded-oracle correspondence + byte-level scan of the real index",
     "6/C04")
